@@ -13,6 +13,7 @@ import (
 	v2 "mosn.io/mosn/pkg/config/v2"
 	"mosn.io/mosn/pkg/metrics"
 	"verif/e2e"
+	"verif/gate"
 	"verif/vh"
 )
 
@@ -33,11 +34,23 @@ type clusterCfg struct {
 type live struct {
 	tok      string
 	how      string
-	cl       *e2e.HTTPClient
+	cl       dsClient
 	admitted bool
 	done     bool
 	started  time.Time
 	resp     chan e2e.Outcome
+}
+
+// dsClient is the downstream side of one request (raw HTTP/1, HTTP/2 or bolt connection).
+type dsClient interface {
+	Recv(d, grace time.Duration) e2e.Outcome
+	Close()
+}
+
+// upstream is what the driver needs from a scripted upstream of any protocol.
+type upstream interface {
+	OpenConns() int
+	Close()
 }
 
 const hangMs = 300 // global timeout of the requests that are to end by timeout
@@ -49,7 +62,11 @@ func main() {
 	shard := flag.Int("shard", 0, "shard index")
 	shards := flag.Int("shards", 1, "number of shards")
 	mode := flag.String("mode", "http", "http | tcp")
+	proto := flag.String("proto", "http1", "http1 | http2 | bolt (protocol of listener and clusters in http mode)")
 	flag.Parse()
+	if *proto == "bolt" {
+		e2e.RegisterBolt()
+	}
 	if *mode == "tcp" {
 		runTCP(*cases, *out, *res, *shard, *shards)
 		return
@@ -59,18 +76,43 @@ func main() {
 
 	reg := e2e.NewRegistry()
 	cfgs := []clusterCfg{{"u00", 0, 0}, {"u20", 2, 0}, {"u21", 2, 1}, {"u11", 1, 1}}
-	ups := map[string]*e2e.HTTPUpstream{}
+	ups := map[string]upstream{}
 	specs := []e2e.ClusterSpec{}
 	routes := []e2e.RouteSpec{}
 	for _, c := range cfgs {
-		u := e2e.NewHTTPUpstream(c.name, reg)
-		defer u.Close()
-		ups[c.name] = u
-		specs = append(specs, e2e.ClusterSpec{Name: c.name, Hosts: []string{u.Addr}, MaxRequests: c.maxReq, MaxRetries: c.maxRetry})
-		routes = append(routes, e2e.RouteSpec{Prefix: "/" + c.name + "/", Cluster: c.name, RetryOn: true, NumRetries: 2})
+		var addr string
+		switch *proto {
+		case "http2":
+			u := e2e.NewH2Upstream(c.name, reg)
+			ups[c.name], addr = u, u.Addr
+		case "bolt":
+			u := e2e.NewBoltUpstream(c.name, reg)
+			ups[c.name], addr = u, u.Addr
+		default:
+			u := e2e.NewHTTPUpstream(c.name, reg)
+			ups[c.name], addr = u, u.Addr
+		}
+		defer ups[c.name].Close()
+		specs = append(specs, e2e.ClusterSpec{Name: c.name, Hosts: []string{addr}, MaxRequests: c.maxReq, MaxRetries: c.maxRetry})
+		rs := e2e.RouteSpec{Prefix: "/" + c.name + "/", Cluster: c.name, RetryOn: true, NumRetries: 2}
+		if *proto == "bolt" { // xprotocol requests are routed by a header
+			cn := c.name
+			rs.Prefix = ""
+			rs.Extra = func(r *v2.Router) {
+				r.Match = v2.RouterMatch{Headers: []v2.HeaderMatcher{{Name: "cluster", Value: cn}}}
+			}
+		}
+		routes = append(routes, rs)
 	}
 	laddr := e2e.ListenerAddr()
-	lst := e2e.BuildListener(e2e.ListenerSpec{Name: "c10", Addr: laddr, Downstream: "Http1", Upstream: "Http1", Routes: routes})
+	ls := e2e.ListenerSpec{Name: "c10", Addr: laddr, Downstream: "Http1", Upstream: "Http1", Routes: routes}
+	switch *proto {
+	case "http2":
+		ls.Downstream, ls.Upstream = "Http2", "Http2"
+	case "bolt":
+		ls.Downstream, ls.Upstream, ls.SubProto = "X", "X", "bolt"
+	}
+	lst := e2e.BuildListener(ls)
 	m := e2e.StartMosn(e2e.BuildConfig([]v2.Listener{lst}, e2e.BuildClusters(specs), e2e.ScratchLog(tmp)))
 	defer m.Close()
 	vh.Must(e2e.WaitListen(laddr, 5*time.Second), "mosn listener")
@@ -119,6 +161,13 @@ func main() {
 		}
 	}
 
+	// how the upstream makes ONE exchange fail: over a multiplexed connection closing the connection would end every
+	// exchange on it, so HTTP/2 aborts the stream (RST_STREAM); bolt has no per-exchange reset (and every error status
+	// is retried like a 5xx), so over bolt this ending is played as a plain answer
+	closeBeh := "gateclose"
+	if *proto == "http2" {
+		closeBeh = "gatereset"
+	}
 	var reqs map[int]*live
 	inflight := 0
 	// a request that is to end by timeout does so by itself: never act or sample close to its deadline, and
@@ -137,6 +186,15 @@ func main() {
 			}
 		}
 	}
+	if os.Getenv("VERIF_C10_DEBUG") != "" { // hook events of the proxy as notes (diagnosis only)
+		sch := gate.Install(func(e gate.Event) {
+			tr.Emit(vh.Ev{"ev": "note", "what": e.Name, "a": fmt.Sprint(e.KV...)})
+		})
+		defer sch.Uninstall()
+	}
+	noteOutcome := func(lv *live, oc e2e.Outcome) { // what the client of a finished request saw (informational)
+		tr.Emit(vh.Ev{"ev": "note", "what": "outcome", "tok": lv.tok, "kind": oc.Kind, "status": oc.Status, "up": oc.Header.Get("X-Upstream")})
+	}
 	idx, n := 0, 0
 	err := vh.ReadCases(*cases, func(raw json.RawMessage) error {
 		idx++
@@ -147,36 +205,55 @@ func main() {
 		if err := json.Unmarshal(raw, &hc); err != nil {
 			return err
 		}
-		c := cfgs[(idx/ *shards)%len(cfgs)]
+		c := cfgs[(idx / *shards)%len(cfgs)]
 		n++
 		for i := 0; i < 100 && dsActive() != 0; i++ {
 			time.Sleep(10 * time.Millisecond)
 		}
-		tr.Emit(vh.Ev{"ev": "run", "cluster": c.name, "maxreq": c.maxReq, "maxretry": c.maxRetry, "ops": hc.Ops})
+		tr.Emit(vh.Ev{"ev": "run", "cluster": c.name, "maxreq": c.maxReq, "maxretry": c.maxRetry, "ops": hc.Ops, "proto": *proto})
 		sample(c, 0, "start")
 		reqs = map[int]*live{}
 		inflight = 0
 		for _, o := range hc.Ops {
 			switch o.Op {
 			case "start":
+				if *proto == "bolt" && o.How == "close" {
+					o.How = "ok"
+				}
 				tok := fmt.Sprintf("k%d-%d-%d", *shard, idx, o.R)
 				script, hold := "gate", "gate"
 				switch o.How {
 				case "retryok":
 					script = "s503,gate"
 				case "close":
-					script, hold = "gateclose", "gateclose"
+					script, hold = closeBeh, closeBeh
 				case "hang":
 					script, hold = "hang", "hang"
 				}
 				settle()
-				cl, err := e2e.DialHTTP(laddr)
-				vh.Must(err, "dial")
-				gto := "8000"
+				gto := 8000
 				if o.How == "hang" {
-					gto = fmt.Sprint(hangMs)
+					gto = hangMs
 				}
-				vh.Must(cl.Send("GET", "/"+c.name+"/x", map[string]string{"X-Token": tok, "X-Script": script, "x-mosn-global-timeout": gto}, ""), "send")
+				var cl dsClient
+				hdr := map[string]string{"X-Token": tok, "X-Script": script, "x-mosn-global-timeout": fmt.Sprint(gto)}
+				switch *proto {
+				case "http2":
+					hc, err := e2e.DialH2(laddr)
+					vh.Must(err, "dial")
+					vh.Must(hc.Send("GET", "/"+c.name+"/x", hdr, ""), "send")
+					cl = hc
+				case "bolt":
+					bc, err := e2e.DialBolt(laddr)
+					vh.Must(err, "dial")
+					vh.Must(bc.Send(false, int32(gto), map[string]string{"cluster": c.name, "token": tok, "script": script}, tok), "send")
+					cl = bc
+				default:
+					hc, err := e2e.DialHTTP(laddr)
+					vh.Must(err, "dial")
+					vh.Must(hc.Send("GET", "/"+c.name+"/x", hdr, ""), "send")
+					cl = hc
+				}
 				lv := &live{tok: tok, how: o.How, cl: cl, started: time.Now(), resp: make(chan e2e.Outcome, 1)}
 				go func() { lv.resp <- cl.Recv(10*time.Second, 0) }()
 				reqs[o.R] = lv
@@ -238,15 +315,15 @@ func main() {
 				switch lv.how {
 				case "ok", "retryok":
 					release(lv.tok, "gate")
-					<-lv.resp
+					noteOutcome(lv, <-lv.resp)
 				case "close":
-					release(lv.tok, "gateclose")
-					<-lv.resp
+					release(lv.tok, closeBeh)
+					noteOutcome(lv, <-lv.resp)
 				case "hang":
-					<-lv.resp // ends by its global timeout
+					noteOutcome(lv, <-lv.resp) // ends by its global timeout
 				case "clientgone":
 					lv.cl.Close()
-					<-lv.resp
+					noteOutcome(lv, <-lv.resp)
 					time.Sleep(5 * time.Millisecond)
 					release(lv.tok, "gate")
 				}
